@@ -492,6 +492,8 @@ class SimSolver:
             r = self._budgeted(self._real, env.rlimit, *assumptions)
             if r == _z3.sat:
                 self._handed = self._real.model()
+                if live_objectives:
+                    self._referee(ev)
                 if steer is not None and live_objectives and not env.steering_off:
                     self._alt_optimal(steer, ev)
             else:
@@ -623,6 +625,53 @@ class SimSolver:
             self._steer_ok = True
             return _z3.sat
         raise HarnessError(f"unknown steer mode {mode!r}")
+
+    def _referee(self, ev):
+        """The built-in optimiser answered sat: what is the true optimum of *its own*
+        assertion set?  Found with a plain solver and an own tightening loop (sat/unsat
+        answers only).  A difference between the value z3.Optimize reports and this optimum
+        is a defect of the engine, not of the way the library wires its objectives - the
+        oracles need to tell the two apart."""
+        env = self._env
+        if not self._objectives or (len(self._objectives) > 1 and env.optimize_priority == "pareto"):
+            return
+        try:
+            m0 = self._handed
+            out = []
+            fixed = []
+            for kind, expr in self._objectives:
+                reported = m0.eval(expr, model_completion=True)
+                if not _z3.is_int_value(reported):
+                    return
+                reported = reported.as_long()
+                sh = _z3.Solver()
+                sh.add(self._real.assertions())
+                if self._tracked:
+                    sh.add(*self._tracked)
+                if env.optimize_priority == "lex":
+                    sh.add(*fixed)
+                best = None
+                for _ in range(120):
+                    r = self._budgeted(sh, RLIMIT_SUB)
+                    if r == _z3.unknown:
+                        best = None
+                        break
+                    if r == _z3.unsat:
+                        break
+                    v = sh.model().eval(expr, model_completion=True)
+                    if not _z3.is_int_value(v):
+                        best = None
+                        break
+                    best = v.as_long()
+                    sh.add(expr < best if kind == "min" else expr > best)
+                else:
+                    best = None
+                out.append({"kind": kind, "reported": reported, "optimum": best})
+                if best is not None:
+                    fixed.append(expr == best)
+            ev["referee"] = out
+        except _z3.Z3Exception:
+            return
 
     def _alt_optimal(self, steer, ev):
         """Optimize with live objectives: after the real optimum, look for another model
